@@ -35,6 +35,9 @@ func register(p *Property) {
 			ruleServerErrorGates(c, files...)
 		}
 	}
+	if len(anchorFilesInServer[id]) > 0 {
+		p.Explanation += " Shared by construction: R01.13 (server part) a success return is reachable from a fallible call in the property's anchor files of package server only across its err == nil edge or a recognised sentinel (four named exceptions); R20.1 the fields of package server that guard state this property depends on are accessed only with their mutex held (frozen lock table)."
+	}
 	registry[p.ID] = p
 }
 
